@@ -27,7 +27,8 @@ theorem inv_init : Inv State.init := Gatery.C09.inv_init
 /-- every operation (create node/group/clock, rewireInput/connectInput, disconnectInput, Node_Signal::connectInput,
 resizeInputs, resizeOutputs, bypassOutputToInput, setOutputConnectionType, moveToGroup, attachClock, detachClock, addClock,
 addRef, removeRef, deleting the node stored at any index of `m_nodes` with the swap-with-back idiom, the whole pass
-`cullOrphanedSignalNodes`, `createUnconnectedClone`, `copySubnet` with and without `copyClocks`, and the destruction of a clock)
+`cullOrphanedSignalNodes`, `createUnconnectedClone`, `copySubnet` with and without `copyClocks`, the destruction of a clock, and
+`Clock::setLogicClockDriver` / `setLogicResetDriver` in any order and repeatedly)
 that returns normally preserves the invariant — for every state, every argument. -/
 theorem inv_step (s s' : State) (op : Op) (hI : Inv s) (hr : step s op = .ok s') : Inv s' :=
   Gatery.C09.inv_step op hI hr
@@ -60,12 +61,21 @@ theorem inv_driver_lists_input (s : State) (hI : Inv s) (h i : Nat) (d : NodePor
 theorem inv_clock_registered (s : State) (hI : Inv s) (h p c : Nat) (hl : s.live h) (hp : p < s.numClk h) (hc : s.clk h p = some c) :
     c < s.nclocks ∧ s.calive c = true ∧ (s.clocked c).count ⟨h, p⟩ = 1 :=
   let ⟨a, b⟩ := hI.1.2.2.1.1 h hl.1 hl.2 p hp c hc
-  ⟨a, hI.1.2.2.2.2 h hl.1 hl.2 p hp c hc, b⟩
+  ⟨a, hI.1.2.2.2.2.1 h hl.1 hl.2 p hp c hc, b⟩
 
 theorem inv_registered_clocked (s : State) (hI : Inv s) (c : Nat) (x : NodePort) (hc : c < s.nclocks) (hx : x ∈ s.clocked c) :
     s.live x.node ∧ x.port < s.numClk x.node ∧ s.clk x.node x.port = some c :=
   let ⟨a, b, d, e⟩ := hI.1.2.2.1.2 c hc x hx
   ⟨⟨a, b⟩, d, e⟩
+
+/-- the logic clock / reset driver a live clock reports (`m_clockDriver`, `m_resetDriver`) is a live node of the right class whose
+clock port 0 is attached to that clock **and** which that clock lists among its clocked nodes exactly once: the registration between
+a clock and its driver nodes is bidirectional -/
+theorem inv_driver_registered (s : State) (hI : Inv s) (k c d : Nat) (hk : k = 1 ∨ k = 2) (hc : c < s.nclocks)
+    (hcal : s.calive c = true) (hd : s.drv k c = some d) :
+    s.live d ∧ s.dk d = k ∧ s.clk d 0 = some c ∧ (s.clocked c).count ⟨d, 0⟩ = 1 := by
+  obtain ⟨a, b, e, f, g⟩ := hI.1.2.2.2.2.2 c hc hcal k (by omega) (by omega) d hd
+  exact ⟨⟨a, b⟩, e, g, (hI.1.2.2.1.1 d a b 0 f c g).2⟩
 
 /-- `createUnconnectedClone` (with `copyBaseToClone` as it is: `m_clocks.resize(n)`): the clone has as many clock ports as the
 source and none of them is set, so nothing has to be registered; the graph stays well formed -/
@@ -76,10 +86,10 @@ theorem clone_unclocked (s s' : State) (src : Nat) (hI : Inv s) (hr : cloneNode 
   split at hr
   · cases hr
   simp only at hr
-  have hG : G { createNode s (s.isSig src) (s.numIn src) (s.numOut src) (s.numClk src) with
+  have hG : G { createNode s (s.isSig src) (s.numIn src) (s.numOut src) (s.numClk src) (s.dk src) with
       ctype := fun x y => if x = s.size then s.ctype src y
-        else (createNode s (s.isSig src) (s.numIn src) (s.numOut src) (s.numClk src)).ctype x y } :=
-    ((prim_inv (s' := s) hI).1 (s.isSig src) (s.numIn src) (s.numOut src) (s.numClk src)).1.2.1
+        else (createNode s (s.isSig src) (s.numIn src) (s.numOut src) (s.numClk src) (s.dk src)).ctype x y } :=
+    ((prim_inv (s' := s) hI).1 (s.isSig src) (s.numIn src) (s.numOut src) (s.numClk src) (s.dk src)).1.2.1
   obtain ⟨gn, gr, rfl, _⟩ := moveToGroup_spec hG hr
   exact ⟨by simp [createNode], fun p => by simp [createNode, clearFrom_apply]⟩
 
@@ -158,6 +168,20 @@ def obs3 (r : Res State) : Option (Nat × List NodePort × List NodePort × Opti
 -- copyClocks = true (node 6) has a clock of its own (clock 1)
 example : obs3 (run State.init (demoOps3.take 9)) = some (7, [⟨0, 0⟩, ⟨2, 0⟩, ⟨4, 0⟩], [⟨6, 0⟩], some 0, some 1, some ⟨4, 0⟩) := by rfl
 example : obs3 (run State.init demoOps3) = some (7, [], [⟨6, 0⟩], none, some 1, some ⟨4, 0⟩) := by rfl
+
+/-- a clock gets a reset driver first and a clock driver second (the order of the frontend's `overrideRstWith` / `overrideClkWith`),
+then both are replaced; the released nodes are unbound and can be deleted -/
+def demoOps4 : List Op :=
+  [.createClock, .createNode false 1 0 1 2, .createNode false 1 0 1 1, .setLogicDriver 2 0 0, .setLogicDriver 1 0 1,
+   .createNode false 1 0 1 1, .createNode false 1 0 1 2, .setLogicDriver 1 0 2, .setLogicDriver 2 0 3, .eraseNode 0]
+
+def obs4 (r : Res State) : Option (Option Nat × Option Nat × List NodePort × Option Nat × Option Nat × List Nat) :=
+  match r with
+  | .ok s => some (s.drv 1 0, s.drv 2 0, s.clocked 0, s.clk 0 0, s.clk 1 0, s.order)
+  | .error _ => none
+
+example : obs4 (run State.init (demoOps4.take 5)) = some (some 1, some 0, [⟨0, 0⟩, ⟨1, 0⟩], some 0, some 0, [0, 1]) := by rfl
+example : obs4 (run State.init demoOps4) = some (some 2, some 3, [⟨2, 0⟩, ⟨3, 0⟩], none, none, [3, 1, 2]) := by rfl
 
 /-- the premises of `bypass_ok` / `bypass_self_diverges` are satisfiable: node 1 (one consumer) can be bypassed, node 0 cannot -/
 def demoOps2 : List Op :=
